@@ -34,6 +34,10 @@ EDIT_CLASSES = [
     # types that only an event payload reaches (directly / through a field of the payload type)
     ("event_only_field", False, "FieldHashData", "rust_type"),
     ("event_nested_field", False, "FieldHashData", "rust_type"),
+    # a field that is not `pub` (emitted like any other), the visibility itself, `async` on the command
+    ("private_field_type", False, "FieldHashData", "rust_type"),
+    ("field_visibility", False, "FieldHashData", "is_public"),
+    ("cmd_async", False, "CommandHashData", "is_async"),
     ("cmd_order", False, "CommandHashData", "name"),
     ("param_order", False, "ParameterHashData", "name"),
     ("field_order", False, "FieldHashData", "name"),
@@ -76,8 +80,9 @@ def render_sources(st):
     variants2 = "    Active,\n    Inactive,\n" if g("variant_order") % 2 == 0 else "    Inactive,\n    Active,\n"
     src = (
         "use serde::{Deserialize, Serialize};\n\n"
-        "#[derive(Debug, Clone, Serialize, Deserialize)]\n%spub struct User {\n%s%s    pub user_name: %s,\n%s    pub hidden_note: i32,\n%s%s}\n\n"
-        % (rename_all, field_attr, validator, fty, skip, extra, tail_fields)
+        "#[derive(Debug, Clone, Serialize, Deserialize)]\n%spub struct User {\n%s%s    pub user_name: %s,\n%s    pub hidden_note: i32,\n    secret_level: %s,\n    %sshown_level: i32,\n%s%s}\n\n"
+        % (rename_all, field_attr, validator, fty, skip, alt(g("private_field_type"), ["i32", "String", "Vec<bool>"]),
+           alt(g("field_visibility"), ["pub ", "", "pub(crate) "]), extra, tail_fields)
         + "#[derive(Debug, Clone, Serialize, Deserialize)]\npub enum Status {\n%s%s%s}\n\n" % (vren, variants2, variant)
     )
     audit_ty = alt(g("event_only_field"), ["String", "i32", "Vec<String>"])
@@ -90,8 +95,8 @@ def render_sources(st):
     p2 = "verbose_flag: bool"
     plist = "%s, %s" % ((p1, p2) if g("param_order") % 2 == 0 else (p2, p1))
     main_cmd = (
-        "#[tauri::command]\n%spub fn %s(%s, on_event: Channel<%s>) -> Result<%s, String> {\n    todo!()\n}\n\n"
-        % (cra, cmd, plist, chan, ret)
+        "#[tauri::command]\n%spub %sfn %s(%s, on_event: Channel<%s>) -> Result<%s, String> {\n    todo!()\n}\n\n"
+        % (cra, alt(g("cmd_async"), ["", "async "]), cmd, plist, chan, ret)
     )
     if not st.get("_noevents", False):
         second = ("#[tauri::command]\npub fn notify(app: AppHandle, %s) -> Result<(), String> {\n    app.emit(\"%s\", &user).ok();\n"
@@ -158,6 +163,13 @@ class Sandbox:
     def obstacle(self, fault, kind=None):
         """make op number `fault` of the plan fail; returns an undo closure"""
         names = self.plan_names()
+        if kind == "immcache":
+            # the cache record can be neither removed nor rewritten (immutable file): the invalidation step fails
+            import subprocess
+            cp = os.path.join(self.out, ".typecache")
+            if os.path.isfile(cp) and subprocess.run(["chattr", "+i", cp], stdout=subprocess.DEVNULL, stderr=subprocess.DEVNULL).returncode == 0:
+                return lambda: subprocess.run(["chattr", "-i", cp], stdout=subprocess.DEVNULL, stderr=subprocess.DEVNULL)
+            return lambda: None
         if kind == "devfull" and fault >= 1:
             # the file can be opened but not written: a symlink to /dev/full (ENOSPC on write / flush)
             target = os.path.join(self.out, names[fault - 1])
